@@ -139,7 +139,7 @@ func TestC06(t *testing.T) {
 		{name: "user-session+old-password", session: tUser, valid: true, sessUser: "u", oldpw: "right"},
 	}
 	targets := []string{"u", "v", "root", "zz", "bad/name", "U", "Root", "w"}
-	shapes := []string{"ok", "empty-username", "missing-fields", "wrong-types", "not-json", "trailing-garbage"}
+	shapes := []string{"ok", "empty-username", "missing-fields", "wrong-types", "not-json", "trailing-garbage", "no-newpassword", "empty-newpassword"}
 	endpoints := []string{"add", "remove", "update", "set-admin", "list", "list-full"}
 	if !ev.Thorough() {
 		targets = targets[:7]
@@ -204,6 +204,9 @@ func c06matrix(ev *verifev.Run, mux http.Handler, dir string, m c06state, snap v
 					continue
 				}
 				for _, sh := range shapes {
+					if (sh == "no-newpassword" || sh == "empty-newpassword") && ep != "update" {
+						continue // only /api/update has that field
+					}
 					if dirty {
 						must(verifx.Restore(dir, snap))
 						dirty = false
@@ -213,7 +216,7 @@ func c06matrix(ev *verifev.Run, mux http.Handler, dir string, m c06state, snap v
 					ev.Add("evaluations", 1)
 					ev.Add("transitions", 1)
 					// ---- reference model
-					wellFormed := sh == "ok" || sh == "trailing-garbage"
+					wellFormed := sh == "ok" || sh == "trailing-garbage" || sh == "no-newpassword" || sh == "empty-newpassword"
 					allowed := false
 					switch ep {
 					case "update":
@@ -439,6 +442,10 @@ func c06body(ep string, cr c06cred, tg, sh string, m c06state) (body []byte, new
 		if ep == "list" || ep == "list-full" {
 			delete(f, "session")
 		}
+	case "no-newpassword":
+		delete(f, "newpassword")
+	case "empty-newpassword":
+		f["newpassword"] = ""
 	case "wrong-types":
 		f["username"] = 5
 		if ep == "list" || ep == "list-full" {
@@ -452,7 +459,7 @@ func c06body(ep string, cr c06cred, tg, sh string, m c06state) (body []byte, new
 	case "trailing-garbage":
 		b = append(b, []byte(" }}garbage")...)
 	}
-	if sh == "missing-fields" && ep == "update" {
+	if (sh == "missing-fields" || sh == "no-newpassword" || sh == "empty-newpassword") && ep == "update" {
 		newpw = ""
 	}
 	return b, newpw, adminFlag
